@@ -4,19 +4,24 @@ from .. import gen, oracles, solved, sysdesc, wire
 
 CLAIM = True
 MODULE = "SysLoss.Props.C03"
+MODULES = ["SysLoss.Props.C03", "SysLoss.Props.C03Live"]
 THEOREMS = ["SysLoss.C03." + t for t in (
     "loop_spec", "solve_terminates", "solvePhase_sound", "solvePhase_error", "passive_ok_physical",
-    "source_ok_physical_partial", "source_ok_physical_full_fails", "exact_fixed_point_returns")]
+    "source_ok_physical_partial", "source_ok_physical_full_fails", "exact_fixed_point_returns",
+    # Props/C03Live: the first liveness class (voltage laws that do not read the load current, single-supply trees)
+    "loop_returns_if_eventually_fixed", "loop_returns_of_iterate_fixed", "volt_io_indep", "volt_step_settle", "volt_frozen",
+    "voltages_settle_partial", "curr_step_settle", "currents_settle_partial", "eventually_fixed_partial",
+    "finite_settling_partial", "law_margin", "noraise_of_margin", "finite_settling_margin_partial")]
 LEVEL_TEXT = ("Theorems (Lean 4) about the model of the sweep loop: it performs at most maxiter+1 sweeps (structural recursion); "
               "whatever it returns is a triple on which the exit test fired (never an intermediate iterate); the only other outcomes are "
               "RuntimeError and an exception raised by a voltage law; and a voltage law that returns for a passive series element "
               "(RLoss, VLoss, PSwitch, Rectifier, Source with vo >= 0) neither inverts nor amplifies its input, over any ordered field. "
               "Tied to the code on every run by replaying the loop in IEEE doubles (outcome class and sweep count must agree with "
               "solve(quiet=False)) and by one more exact model sweep on every returned table; the oracle checks finiteness, polarity, "
-              "exception class and default-settings convergence on modest-drop trees. Not proved: the general liveness clause "
+              "exception class and default-settings convergence on modest-drop trees. Liveness, first class proved (Props/C03Live): on single-supply trees whose voltage laws do not read the load current (rs = 0, constant drops; converters and regulators arbitrary) the sweep map reaches an EXACT fixed point after at most 2*depth+2 sweeps, so solve() returns (never RuntimeError) whenever maxiter >= 2*depth+3 (`finite_settling_partial`, with the no-raise premise derived from a checkable margin certificate in `finite_settling_margin_partial`); generic lemma `loop_returns_if_eventually_fixed` for any system. Not proved: the general liveness clause "
               "(existence of a modest-drop steady state implies convergence) - tested on every generated modest-drop system only; "
               "finiteness (IEEE overflow) is outside an ordered-field theorem. Partial: negative Source with resistance amplifies (F01).")
-LEVEL_NOTE = "The PMux instance of the polarity theorem is in Props/C05; liveness is evidence by test, labelled as such."
+LEVEL_NOTE = "The PMux instance of the polarity theorem is in Props/C05; liveness for current-dependent drops (the statement C03_liveness_full in Props/C03Live.lean, a def, not asserted) is evidence by test only, labelled as such."
 RULE = ("three streams: modest-drop trees (must converge with default settings), overloaded trees (constant-power / "
         "constant-current loads behind series resistance sized 0.5-20x the critical value at a source, switch, mux input, "
         "MOSFET bridge or series loss), and solver settings vtol,itol in 10^[-12,-2], maxiter in {0,1,2,5,50,10000}; "
